@@ -118,6 +118,19 @@ Theorem seqnum_strictly_increases_across_reconnects :
 Proof. exact seqnum_survives_reconnects_ok. Qed.
 Print Assumptions seqnum_strictly_increases_across_reconnects.
 
+(* A subscriber that registers late (after any stream of batches and connection losses) is told,
+   for its service, each key together with exactly the announcement currently held for that key. *)
+Theorem late_subscriber_gets_current :
+  forall (pubkey keystr msg sig : Type) (verify : pubkey -> msg -> sig -> bool)
+         (parse_key : keystr -> option pubkey) (canon : pubkey -> keystr) (decode : msg -> option ann_json)
+         (keystr_eqb : keystr -> keystr -> bool),
+    (forall a b, keystr_eqb a b = true <-> a = b) ->
+    forall (client : bool) (subscribed : N -> bool) (evs : list (event keystr msg sig)) (svc : N) (ks : keystr) (a : ann),
+    let st := fst (run_events verify parse_key canon decode keystr_eqb client subscribed empty_state evs) in
+    In (ks, a) (backlog st svc) <-> lookup keystr_eqb (st_store st) (svc, ks) = Some a.
+Proof. exact late_subscriber_gets_current_ok. Qed.
+Print Assumptions late_subscriber_gets_current.
+
 (* the same, read for integer sequence numbers *)
 Theorem seqnum_never_replaced_by_lower_or_equal :
   forall (pubkey keystr msg sig : Type) (verify : pubkey -> msg -> sig -> bool)
@@ -220,6 +233,11 @@ Proof. vm_compute. reflexivity. Qed.
 Example ex_replay_after_reconnect :
   let r := sym_run_events true ex_tbl true [7] [EBatch [good 1 10; good 1 11]; EReconnect; EBatch [good 1 10; good 1 13]] in
   (stored_ids (fst r), snd r) = ([(7, 1, 0, 11)], [[PNew; PUpdate]; [PTooOld; PNoValidSeq]]).
+Proof. vm_compute. reflexivity. Qed.
+
+Example ex_late_subscriber :
+  let r := sym_run_events true ex_tbl true [7] [EBatch [good 1 10; good 2 14; good 1 11]] in
+  backlog_ids (fst r) 7 = [(1, 0, 11); (2, 0, 14)].
 Proof. vm_compute. reflexivity. Qed.
 
 Example keystr_eqb_nonvacuous : forall a b, sym_keystr_eqb a b = true <-> a = b.
